@@ -22,6 +22,7 @@ function takesBase(Base a) -> int { return a.pub; }
 function takesFloat(float a) -> float { return a; }
 function nothing() -> void { }
 function mkArr() -> int[] { int[] a = {1, 2}; return a; }
+class Vm { public constructor() -> Vm = default; public function go() -> void { } }
 """
 
 # statement contexts: %s is replaced by a statement sequence; every context is a complete program (after PRELUDE)
@@ -129,6 +130,17 @@ def cases():
         ("void-argument", "takesInt(nothing());", "nothing(); takesInt(1);"),
         ("void-operand", "int r = nothing() + 1;", "nothing(); int r = 1 + 1;"),
         ("void-echo", "echo(nothing());", "nothing(); echo(1);"),
+        ("void-concat-operand", "echo(\"a\" + nothing());", "nothing(); echo(\"a\" + 1);"),
+        ("void-concat-initialiser", "string vs = \"a\" + nothing();", "nothing(); string vs = \"a\" + 1;"),
+        ("void-left-operand", "int r = nothing() * 2;", "nothing(); int r = 1 * 2;"),
+        ("void-comparison-operand", "boolean r = nothing() == 1;", "nothing(); boolean r = 1 == 1;"),
+        ("void-unary-operand", "int r = -nothing();", "nothing(); int r = -1;"),
+        ("void-condition", "if (nothing()) { echo(1); }", "nothing(); if (true) { echo(1); }"),
+        ("void-index", "int[] va = {1, 2}; echo(va[nothing()]);", "nothing(); int[] va = {1, 2}; echo(va[0]);"),
+        ("void-array-element", "int[] va = {nothing()};", "nothing(); int[] va = {1};"),
+        ("void-method-result-assigned", "Vm vm = new Vm(); int r = vm.go();", "Vm vm = new Vm(); vm.go(); int r = 1;"),
+        ("void-method-result-operand", "Vm vm = new Vm(); echo(\"a\" + vm.go());", "Vm vm = new Vm(); vm.go(); echo(\"a\" + 1);"),
+        ("void-cast-operand", "int r = (int) nothing();", "nothing(); int r = (int) 1.5f;"),
         ("void-variable", "void nv;", "int nv;"),
         ("private-field-read", "Base pb = new Base(); echo(pb.priv);", "Base pb = new Base(); echo(pb.pub);"),
         ("private-field-write", "Base pb = new Base(); pb.priv = 9;", "Base pb = new Base(); pb.pub = 9;"),
